@@ -126,6 +126,7 @@ func snapInfo(e *Event, a failsafe.ExecutionInfo) {
 
 func (w *World) onEvent(pol, l int) func(failsafe.ExecutionEvent[R]) {
 	return func(ev failsafe.ExecutionEvent[R]) {
+		simrt.Yield("listener")
 		e := Event{Kind: EvListener, Pos: pol, L: l}
 		snapAttempt(&e, ev.ExecutionAttempt)
 		w.log.add(e)
@@ -134,6 +135,7 @@ func (w *World) onEvent(pol, l int) func(failsafe.ExecutionEvent[R]) {
 
 func (w *World) onDoneEvent(pol, l int) func(failsafe.ExecutionDoneEvent[R]) {
 	return func(ev failsafe.ExecutionDoneEvent[R]) {
+		simrt.Yield("listener")
 		e := Event{Kind: EvListener, Pos: pol, L: l, Val: ev.Result, Err: ev.Error}
 		snapInfo(&e, ev.ExecutionInfo)
 		w.log.add(e)
@@ -219,6 +221,7 @@ func (w *World) build(sc *Scenario, log *Log) {
 			b.OnSuccess(w.onEvent(i, LPolSuccess)).OnFailure(w.onEvent(i, LPolFailure)).
 				OnRetry(w.onEvent(i, LRetry)).OnRetriesExceeded(w.onEvent(i, LRetriesExceeded)).OnAbort(w.onEvent(i, LAbort)).
 				OnRetryScheduled(func(ev failsafe.ExecutionScheduledEvent[R]) {
+					simrt.Yield("listener")
 					e := Event{Kind: EvListener, Pos: i, L: LRetryScheduled, A: int64(ev.Delay)}
 					snapAttempt(&e, ev.ExecutionAttempt)
 					w.log.add(e)
@@ -250,6 +253,7 @@ func (w *World) build(sc *Scenario, log *Log) {
 			}
 			sc := func(l int) func(circuitbreaker.StateChangedEvent) {
 				return func(ev circuitbreaker.StateChangedEvent) {
+					simrt.Yield("listener")
 					m := ev.Metrics()
 					e := Event{Kind: EvListener, Pos: i, L: l, A: int64(ev.OldState), B: int64(ev.NewState),
 						Attempts: int(m.Executions()), Executions: int(m.Failures()), Retries: int(m.Successes()), Hedges: int(m.FailureRate())}
